@@ -5,11 +5,11 @@ with the suspected trigger removed no longer produces the report) - never by see
 from vlib import common
 
 
-def _replay_has(spec, ops, key, **kw):
+def _replay_has(spec, ops, key, stop_on_taint=None, **kw):
     from vlib import hops
     d = common.scratch_dir()
     try:
-        eng = hops.replay_ops(spec, ops, d, name='cls', **kw)
+        eng = hops.replay_ops(spec, ops, d, name='cls', stop_on_taint=stop_on_taint, **kw)
         return any((r.monitor, r.kind) == key for r in eng.reports)
     finally:
         import shutil; shutil.rmtree(d, ignore_errors=True)
@@ -21,10 +21,10 @@ def classify(pid, report, eng, ops):
 
     # --- seed (pk-only object) whose many-to-one reference is reassigned, then the OLD parent's collection is
     #     loaded from the database: the load puts the object back into the old parent's collection.
-    if mon in ('cachemodel', 'read', 'commit', 'reverse', 'cascade', 'index', 'identity'):
+    if mon in ('cachemodel', 'read', 'commit', 'reverse', 'cascade', 'index', 'identity', 'atomic'):
         # deviation replay: with every handle fully loaded (no pk-only seeds) the report must disappear,
         # and the history must really have operated on seeds
-        if eng.counts.get('seed_handles', 0) and not _replay_has(eng.spec, ops, key, force_load=True):
+        if (eng.counts.get('seed_handles', 0) or det.get('seed_reassigned')) and not _replay_has(eng.spec, ops, key, stop_on_taint=eng.stop_on_taint, force_load=True):
             return pid + '-UNLOADED-SEED-REVERSE-NOT-MAINTAINED'
 
         # an object deleted (directly or by cascade) while the session only had it as a pk-only seed / not loaded
@@ -50,7 +50,7 @@ def classify(pid, report, eng, ops):
     fc = det.get('after_failed_call')
     if fc and mon != 'atomic':
         if fc.get('exc') in ('RecursionError', 'OperationWithDeletedObjectError', 'AssertionError') and \
-                (fc.get('cascade_cycle') or fc.get('model_expected_refusal') == 'deleted' or fc.get('exc') == 'RecursionError'):
+                (fc.get('cascade_cycle') or fc.get('model_expected_refusal') in ('deleted', 'model_gap') or fc.get('exc') == 'RecursionError'):
             return pid + '-CASCADE-CYCLE-FAILS-MIDWAY'
 
     # --- atomicity mechanisms (C13), identified by failing operation + exception + differing component
@@ -61,6 +61,10 @@ def classify(pid, report, eng, ops):
         # cascade chains that come back to an object already being deleted (cycle of cascade_delete
         # relationships), or that delete the very object being assigned, fail midway
         if exc in ('RecursionError', 'OperationWithDeletedObjectError', 'AssertionError') and \
-                (det.get('cascade_cycle') or det.get('model_expected_refusal') == 'deleted' or exc == 'RecursionError'):
+                (det.get('cascade_cycle') or det.get('model_expected_refusal') in ('deleted', 'model_gap') or exc == 'RecursionError'):
             return pid + '-CASCADE-CYCLE-FAILS-MIDWAY'
+        # a delete that the rules refuse (required dependent without cascade) AFTER it had already cascaded to
+        # other objects: rolling the partial cascade back trips an assertion inside pony's undo functions
+        if op == 'delete' and exc == 'AssertionError' and det.get('model_expected_refusal') == 'cascade':
+            return pid + '-REFUSED-DELETE-UNDO-ASSERTION'
     return None
